@@ -291,12 +291,16 @@ static void classify_leak(char *out, size_t cap)
     char *e = strstr(rep, "leak of "); long bytes = 0; char func[96] = "?";
     if (e) {
         sscanf(e + 8, "%ld", &bytes);
+        /* first frame that is neither the interceptor nor an allocation wrapper */
         char *q = e;
         while ((q = strstr(q, " in "))) {
             char f[96], file[256]; f[0] = file[0] = 0;
             sscanf(q + 4, "%95s %255s", f, file);
-            if ((strstr(file, "/matrixssl/") || strstr(file, "/crypto/") || strstr(file, "/core/")) && strncmp(f, "psMalloc", 8) && strncmp(f, "psCalloc", 8) && strncmp(f, "psRealloc", 9)) { strcpy(func, f); break; }
-            q += 4; if (q - e > 4000) break;
+            q += 4;
+            if (strstr(f, "interceptor") || strstr(file, "libsanitizer") || strstr(file, "asan_")) continue;
+            if (!strncmp(f, "psMalloc", 8) || !strncmp(f, "psCalloc", 8) || !strncmp(f, "psRealloc", 9) || !strncmp(f, "psBufInit", 9) ||
+                !strncmp(f, "psDynBuf", 8) || !strncmp(f, "psBufFromData", 13)) continue;
+            strcpy(func, f); break;
         }
     }
     snprintf(out, cap, "%s:%ld", func, bytes);
@@ -386,7 +390,192 @@ static void op_cap(const char *cfg)
 }
 
 /*UNIT-OPS*/
-static void op_unit(void) { emit("BADCASE"); }
+/* ------------------------------------------------------------------ unit operations (model correspondence)
+   All of them: u <op> <cfg> <k> <c|s> ... ; the parent replays the first k units of the legal transcript of
+   <cfg>, the forked child works on the given side through matrixSslDecode (the public decode entry point;
+   every input sits in a heap block of exactly its size, so a read past *len is an ASan report).
+     u hdr <cfg> <k> <c|s> <hs|-> <expEpoch|-> <pccs> <ade> <hex>
+          record header + (DTLS) epoch / replay gate; ssl->decrypt is replaced by a spy that notes where the
+          record was handed to the cipher.  -> "pre=<head>:<actv>:<supp>:<hs>:<exp>:<last>:<bm>:<pccs>:<ade0>:<server>
+          <D off len | P req | A alert | R rc used> post=<actv>:<exp>:<last>:<bm>"
+     u t13 <cfg> <k> <c|s> <hex> [<hex> ...]
+          TLS 1.3 plaintext state: record header / CCS loop / handshake message reassembly; one decode call per hex.
+          -> per call "<P req | A alert | R rc used> fi=<fragIndex> ft=<fragTotal> fm=<0|1>" joined by " | "
+     u tls <cfg> <k> <c|s> <hex> ...      TLS <= 1.2 handshake records; sslUpdateHSHash is wrapped: every message
+          handed to hash + parser is logged.  -> per call "<..> fi= ft= fm= [H<len>:<fnv32>...]"
+     u dtls <cfg> <k> <c|s> <hex> ...     DTLS handshake records (one datagram per hex)
+          -> per call "<..> ft=<fragTotal> fs=<fragLenStored> nh=<used fragHeaders> fm= [F<off>:<len>:<fnv>|I<len>:<fnv>|S<len>...]"
+     u api <cfg> <k> <c|s> <insize> <outsize> <outlen> <n> <rc:moved:len:req:err:alert:ctlen:done,...>
+          matrixSslGetReadbuf / matrixSslReceivedData / matrixSslProcessedData with matrixSslDecode replaced
+          (--wrap) by the scripted answers.  -> "rb=<room> <rc>:<inlen>/<insize>:<outlen>/<outsize> ..."
+     u cbc <cfg> <k> <c|s> <hex>
+          one record for a session whose read cipher is CBC: null cipher of the same geometry + a verifyMac spy
+          -> "pre=<macSize>:<blockSize>:<explicit iv>:<read secure> <V data_off data_len mac_off | A alert>" */
+static uint32_t fnv32(const unsigned char *b, size_t l) { uint32_t h = 2166136261u; for (size_t i = 0; i < l; i++) { h ^= b[i]; h *= 16777619u; } return h; }
+
+static unsigned char *g_ubuf; static int g_ulen; static ssl_t *g_ussl;
+static int g_spy_off, g_spy_len, g_spy_hit;
+static int32 spy_dec(void *v, unsigned char *in, unsigned char *out, uint32 len)
+{ if (!g_spy_hit) { g_spy_hit = 1; g_spy_off = (int) (in - g_ubuf); g_spy_len = (int) len; } return -1; }
+
+static int g_mac_hit, g_mac_data, g_mac_len, g_mac_off;
+static int32 spy_mac(void *ssl, unsigned char type, unsigned char *data, uint32 len, unsigned char *mac)
+{ g_mac_hit = 1; g_mac_data = (int) (data - g_ubuf); g_mac_len = (int) len; g_mac_off = (int) (mac - g_ubuf); return -1; }
+
+static char g_hlog[2048]; static int g_hlogn, g_hlog_on;
+int32_t __real_sslUpdateHSHash(ssl_t *ssl, const unsigned char *in, psSize_t len);
+int32_t __wrap_sslUpdateHSHash(ssl_t *ssl, const unsigned char *in, psSize_t len)
+{
+    if (g_hlog_on && ssl == g_ussl && g_hlogn < (int) sizeof g_hlog - 64) {
+        if (ssl->fragMessage && in >= ssl->fragMessage && in <= ssl->fragMessage + ssl->fragLenStored && (ACTV_VER(ssl, v_dtls_any)))
+            g_hlogn += snprintf(g_hlog + g_hlogn, sizeof g_hlog - g_hlogn, " F%d:%d:%08x", (int) (in - ssl->fragMessage), (int) len, fnv32(in, len));
+        else if (g_ubuf && in >= g_ubuf && in <= g_ubuf + g_ulen)
+            g_hlogn += snprintf(g_hlog + g_hlogn, sizeof g_hlog - g_hlogn, " %c%d:%08x", g_hlog_on == 2 ? 'I' : 'H', (int) len, fnv32(in, len));
+        else if (g_hlog_on == 2) g_hlogn += snprintf(g_hlog + g_hlogn, sizeof g_hlog - g_hlogn, " S%d", (int) len);
+        else g_hlogn += snprintf(g_hlog + g_hlogn, sizeof g_hlog - g_hlogn, " H%d:%08x", (int) len, fnv32(in, len));
+    }
+    return __real_sslUpdateHSHash(ssl, in, len);
+}
+
+/* scripted decoder for `u api` */
+typedef struct { int rc, moved, len, req, err, alert, ctlen, done; } dscript_t;
+static dscript_t g_ds[32]; static int g_nds, g_dsi, g_ds_on;
+int32 __real_matrixSslDecode(ssl_t *ssl, unsigned char **buf, uint32 *len, uint32 size, uint32 *remaining, uint32 *requiredLen,
+                             int32 *error, unsigned char *alertLevel, unsigned char *alertDescription);
+int32 __wrap_matrixSslDecode(ssl_t *ssl, unsigned char **buf, uint32 *len, uint32 size, uint32 *remaining, uint32 *requiredLen,
+                             int32 *error, unsigned char *alertLevel, unsigned char *alertDescription)
+{
+    if (!g_ds_on) return __real_matrixSslDecode(ssl, buf, len, size, remaining, requiredLen, error, alertLevel, alertDescription);
+    static dscript_t more = { SSL_PARTIAL, 0, 0, 5, 0, 255, 0, 0 };      /* script exhausted: "need more data" */
+    dscript_t *d = g_dsi < g_nds ? &g_ds[g_dsi] : &more; g_dsi++;
+    *buf += d->moved; *len = (uint32) d->len; *requiredLen = (uint32) d->req; *error = d->err;
+    *alertLevel = 2; *alertDescription = (unsigned char) d->alert; *remaining = (uint32) (ssl->inlen - d->moved);
+    ssl->rec.len = (unsigned short) (d->ctlen - ssl->recordHeadLen);   /* ProcessedData recomputes ctlen from it */
+    if (d->done) ssl->hsState = SSL_HS_DONE;
+    return d->rc;
+}
+
+typedef struct { int rc, used, req, alert; } ures_t;
+static ures_t decode_exact(ssl_t *s, const unsigned char *d, int l)
+{
+    ures_t r; unsigned char *buf = malloc(l ? l : 1); memcpy(buf, d, l);
+    unsigned char *p = buf, al = 0, ad = 0; uint32 len = (uint32) l, rem = 0, req = 0; int32 err = 0;
+    g_ubuf = buf; g_ulen = l;
+    int rc = matrixSslDecode(s, &p, &len, (uint32) l, &rem, &req, &err, &al, &ad);
+    r.used = (int) (p - buf);
+    if (rc == SSL_FULL) {          /* the response does not fit the (exact) buffer: grow it as matrixSslReceivedData does */
+        unsigned char *nb = malloc(req ? req : 1); p = nb; len = 0; uint32 sz = req;
+        rc = matrixSslDecode(s, &p, &len, sz, &rem, &req, &err, &al, &ad);
+        free(nb);
+    }
+    r.rc = rc; r.req = (int) req; r.alert = s->err;
+    g_ubuf = NULL; free(buf);
+    return r;
+}
+static int fmt_res(char *o, size_t cap, ures_t r)
+{
+    if (g_spy_hit) return snprintf(o, cap, "D %d %d", g_spy_off, g_spy_len);
+    if (r.rc == SSL_PARTIAL) return snprintf(o, cap, "P %d", r.req);
+    if (r.rc == SSL_SEND_RESPONSE && r.alert != SSL_ALERT_NONE) return snprintf(o, cap, "A %d", r.alert);
+    if (r.rc == MATRIXSSL_SUCCESS || r.rc == DTLS_RETRANSMIT || r.rc == PS_FAILURE) return snprintf(o, cap, "R %d %d", r.rc, r.used);
+    return snprintf(o, cap, "X %d %d", r.rc, r.alert);
+}
+static unsigned long long be48(const unsigned char *b) { unsigned long long v = 0; for (int i = 0; i < 6; i++) v = (v << 8) | b[i]; return v; }
+
+static void child_unit(void *v)
+{
+    (void) v; char line[4096]; int n = 0;
+    const char *op = g_tok[1]; peer_t *p = peer_of(g_tok[4][0] == 's'); ssl_t *s = p->ssl;
+    alarm(5); g_ussl = s;
+    if (!strcmp(op, "hdr") && g_ntok >= 10) {
+        if (strcmp(g_tok[5], "-")) s->hsState = atoi(g_tok[5]);
+        if (strcmp(g_tok[6], "-")) { int e = atoi(g_tok[6]); s->expectedEpoch[0] = e >> 8; s->expectedEpoch[1] = e & 0xff; }
+        s->parsedCCS = atoi(g_tok[7]); s->appDataExch = atoi(g_tok[8]);
+        n += snprintf(line + n, sizeof line - n, "pre=%d:%llx:%llx:%d:%d:%llx:%lx:%d:%d:%d ", (int) s->recordHeadLen,
+                      (unsigned long long) s->activeVersion, (unsigned long long) s->supportedVersions, (int) s->hsState,
+                      (s->expectedEpoch[0] << 8) | s->expectedEpoch[1], be48(s->lastRsn), (unsigned long) s->dtlsBitmap,
+                      s->parsedCCS ? 1 : 0, s->appDataExch == 0, (s->flags & SSL_FLAGS_SERVER) ? 1 : 0);
+        s->decrypt = spy_dec; g_spy_hit = 0;
+        unsigned char *d; size_t l = unhex(g_tok[9], &d);
+        ures_t r = decode_exact(s, d, (int) l);
+        n += fmt_res(line + n, sizeof line - n, r);
+        n += snprintf(line + n, sizeof line - n, " post=%llx:%d:%llx:%lx", (unsigned long long) s->activeVersion,
+                      (s->expectedEpoch[0] << 8) | s->expectedEpoch[1], be48(s->lastRsn), (unsigned long) s->dtlsBitmap);
+        emit(line); _exit(0);
+    }
+    if ((!strcmp(op, "t13") || !strcmp(op, "tls") || !strcmp(op, "dtls")) && g_ntok >= 6) {
+        int kind = op[1] == '1' ? 0 : op[0] == 't' ? 1 : 2;
+        g_hlog_on = kind == 0 ? 0 : kind; g_spy_hit = 0;
+        for (int i = 5; i < g_ntok; i++) {
+            unsigned char *d; size_t l = unhex(g_tok[i], &d);
+            g_hlogn = 0; g_hlog[0] = 0;
+            ures_t r = decode_exact(s, d, (int) l); free(d);
+            if (i > 5) n += snprintf(line + n, sizeof line - n, " | ");
+            n += fmt_res(line + n, sizeof line - n, r);
+            if (kind == 2) {
+                int nh = 0; for (int j = 0; j < MAX_FRAGMENTS; j++) if (s->fragHeaders[j].offset != -1) nh++;
+                n += snprintf(line + n, sizeof line - n, " ft=%u fs=%u nh=%d fm=%d", (unsigned) s->fragTotal, (unsigned) s->fragLenStored, nh, s->fragMessage != NULL);
+            } else
+                n += snprintf(line + n, sizeof line - n, " fi=%u ft=%u fm=%d", (unsigned) s->fragIndex, (unsigned) s->fragTotal, s->fragMessage != NULL);
+            n += snprintf(line + n, sizeof line - n, "%s", g_hlog);
+            if (s->flags & (SSL_FLAGS_ERROR | SSL_FLAGS_CLOSED)) break;
+            if (n > (int) sizeof line - 600) break;
+        }
+        emit(line); _exit(0);
+    }
+    if (!strcmp(op, "cbc") && g_ntok >= 6) {
+        /* CBC record with chosen plaintext: where does the code look for pad and MAC?  verifyMac is a spy */
+        s->decrypt = shim_null; s->verifyMac = spy_mac; g_mac_hit = 0;
+        unsigned char *d; size_t l = unhex(g_tok[5], &d);
+        n += snprintf(line + n, sizeof line - n, "pre=%d:%d:%d:%d ", (int) s->deMacSize, (int) s->deBlockSize,
+                      ACTV_VER(s, v_tls_explicit_iv) ? 1 : 0, (s->flags & SSL_FLAGS_READ_SECURE) ? 1 : 0);
+        ures_t r = decode_exact(s, d, (int) l);
+        if (g_mac_hit) n += snprintf(line + n, sizeof line - n, "V %d %d %d", g_mac_data, g_mac_len, g_mac_off);
+        else n += fmt_res(line + n, sizeof line - n, r);
+        emit(line); _exit(0);
+    }
+    if (!strcmp(op, "api") && g_ntok >= 10) {
+        int insize = atoi(g_tok[5]), outsize = atoi(g_tok[6]), outlen = atoi(g_tok[7]), nin = atoi(g_tok[8]);
+        g_nds = 0; g_dsi = 0;
+        for (char *q = g_tok[9]; *q && g_nds < 32; ) {
+            dscript_t *d = &g_ds[g_nds++];
+            sscanf(q, "%d:%d:%d:%d:%d:%d:%d:%d", &d->rc, &d->moved, &d->len, &d->req, &d->err, &d->alert, &d->ctlen, &d->done);
+            while (*q && *q != ',') q++; if (*q) q++;
+        }
+        psFree(s->inbuf, s->bufferPool); s->inbuf = psMalloc(s->bufferPool, insize); s->insize = insize; s->inlen = 0;
+        psFree(s->outbuf, s->bufferPool); s->outbuf = psMalloc(s->bufferPool, outsize); s->outsize = outsize; s->outlen = outlen;
+        memset(s->outbuf, 0, outsize); memset(s->inbuf, 0, insize);
+        s->bFlags &= ~BFLAG_HS_COMPLETE; s->flags &= ~SSL_FLAGS_FALSE_START;
+        unsigned char *rb, *pt; uint32 ptl; int32 room = matrixSslGetReadbuf(s, &rb);
+        n += snprintf(line + n, sizeof line - n, "rb=%d", room);
+        memset(rb, 0x16, nin);                                   /* the application writes what it received */
+        g_ds_on = 1; int oob = 0;
+        int rc = matrixSslReceivedData(s, (uint32) nin, &pt, &ptl);
+        for (int guard = 0; guard < 40; guard++) {
+            n += snprintf(line + n, sizeof line - n, " %d:%d/%d:%d/%d", rc, (int) s->inlen, (int) s->insize, (int) s->outlen, (int) s->outsize);
+            if (s->inlen < 0 || s->inlen > s->insize) oob = 1;
+            if (rc == MATRIXSSL_APP_DATA || rc == MATRIXSSL_RECEIVED_ALERT) { rc = matrixSslProcessedData(s, &pt, &ptl); continue; }
+            break;
+        }
+        g_ds_on = 0;
+        /* a fill level outside the buffer is the fault itself (the next write through matrixSslGetReadbuf lands outside;
+           ASan sees it only when it hits a red zone) */
+        if (oob) { n += snprintf(line + n, sizeof line - n, " FAULT"); emit(line); _exit(0); }
+        /* what the application does next: ask for the read buffer and store one byte there */
+        room = matrixSslGetReadbuf(s, &rb);
+        if (room > 0) rb[0] = 1;
+        n += snprintf(line + n, sizeof line - n, " rb=%d", room);
+        emit(line); _exit(0);
+    }
+    emit("BADUNIT"); _exit(0);
+}
+static void op_unit(void)
+{
+    if (g_ntok < 5) { emit("BADCASE"); return; }
+    int rc = prepare_state(g_tok[2], atoi(g_tok[3]));
+    if (rc < 0) { fprintf(g_out, "PREPFAIL %d\n", rc); fflush(g_out); return; }
+    run_forked(child_unit, NULL);
+}
 /*END-UNIT-OPS*/
 
 int main(void)
